@@ -46,6 +46,10 @@ type jwrite struct {
 	Label   uint64  `json:"label,omitempty"`  // body or supervoxel to split
 	NoDown  bool    `json:"nodown,omitempty"` // svsplit with downres=false
 	At      *[3]int `json:"at,omitempty"`     // Label = the supervoxel (svsplit) / body (bodysplit) found at this voxel when the write is issued
+	// version-DAG histories: the version the write goes to.  0 = the root; 1 = the newversion child of the
+	// root, 2 = its branch child.  The first write with Ver != 0 commits the root and opens BOTH children;
+	// from then on the levels of both are read back after every step.
+	Ver int `json:"ver,omitempty"`
 }
 
 // legal: false for the documented illegal option combinations of POST blocks (to be refused)
@@ -70,6 +74,16 @@ type jcase struct {
 	Steps bool `json:"steps,omitempty"`
 }
 
+// dag: a history over a version DAG (some write names a version)
+func (c jcase) dag() bool {
+	for _, w := range c.Writes {
+		if w.Ver != 0 {
+			return true
+		}
+	}
+	return false
+}
+
 func hx(b []byte) string { return `(hx "` + hex.EncodeToString(b) + `"%string)` }
 
 func mkBlock(g [3]int, ps []blk.Paint) (*labels.Block, error) {
@@ -87,6 +101,9 @@ type httpResult struct {
 	Illegal map[int]bool `json:"illegal,omitempty"`
 	// histories with other steps than raw writes: the levels read back after every step
 	StepLevels [][]string `json:"step_levels,omitempty"`
+	// version-DAG histories: after every step, for every version that exists then (the root alone, or
+	// child 1 and child 2), the levels read back
+	DagLevels [][][]string `json:"dag_levels,omitempty"`
 }
 
 // runHTTP plays one history against an in-process DVID.  It runs in a child process of the driver:
@@ -251,7 +268,10 @@ func runHTTP(c jcase) (res httpResult) {
 				if w.NoDown {
 					q = "?downres=false"
 				}
-				st = classOf(dv.Post(fmt.Sprintf("/api/node/%s/%s/split-supervoxel/%d%s", node, name, w.Label, q), buf.Bytes()))
+				r := dv.Post(fmt.Sprintf("/api/node/%s/%s/split-supervoxel/%d%s", node, name, w.Label, q), buf.Bytes())
+				if st = classOf(r); st != 0 {
+					fmt.Fprintf(os.Stderr, "split-supervoxel %d: %d %s\n", w.Label, r.Status, r.Body)
+				}
 			}
 			if st != 0 {
 				return st
@@ -310,10 +330,53 @@ func runHTTP(c jcase) (res httpResult) {
 			hist = true
 		}
 	}
+	dag := c.dag()
+	var kids [2]string // the two open sibling versions of a DAG history
 	var status []uint64
 	failed := false
 	for i := 0; i < len(c.Writes) && !failed; {
 		w := c.Writes[i]
+		if dag {
+			if w.Ver != 0 && kids[0] == "" {
+				if r := dv.Commit(uuid); r.Status != 200 {
+					fmt.Fprintln(os.Stderr, "commit:", r.Status, string(r.Body))
+					os.Exit(2)
+				}
+				var r dv.Resp
+				if kids[0], r = dv.NewVersion(uuid); r.Status != 200 || kids[0] == "" {
+					fmt.Fprintln(os.Stderr, "newversion:", r.Status, string(r.Body))
+					os.Exit(2)
+				}
+				if kids[1], r = dv.Branch(uuid, "side"); r.Status != 200 || kids[1] == "" {
+					fmt.Fprintln(os.Stderr, "branch:", r.Status, string(r.Body))
+					os.Exit(2)
+				}
+				res.Counts["http:dag:fork(newversion+branch)"]++
+			}
+			node := uuid
+			if w.Ver != 0 {
+				node = kids[w.Ver-1]
+			}
+			st := post(i, node)
+			status = append(status, st)
+			res.Counts[fmt.Sprintf("http:write-status-class:%d", st)]++
+			res.Counts[fmt.Sprintf("http:dag:write-in-version:%d", w.Ver)]++
+			if st != 0 && !(st == 1 && (!w.legal() || res.Illegal[i])) {
+				failed = true
+				break
+			}
+			if err := downres.BlockOnUpdating(dvid.UUID(node), dvid.InstanceName(name)); err != nil {
+				failed = true
+				break
+			}
+			if kids[0] == "" {
+				res.DagLevels = append(res.DagLevels, [][]string{readLevels(uuid)})
+			} else {
+				res.DagLevels = append(res.DagLevels, [][]string{readLevels(kids[0]), readLevels(kids[1])})
+			}
+			i++
+			continue
+		}
 		if w.Child {
 			if r := dv.Commit(uuid); r.Status != 200 {
 				fmt.Fprintln(os.Stderr, "commit:", r.Status, string(r.Body))
@@ -369,7 +432,7 @@ func runHTTP(c jcase) (res httpResult) {
 		}
 	}
 	var levels []string
-	if !failed {
+	if !failed && !dag {
 		levels = readLevels(uuid)
 	}
 	res.Status, res.Levels = status, levels
@@ -570,7 +633,41 @@ func main() {
 		}
 		term := fmt.Sprintf("(CHttp %d [%s] %s %s %s (%d,%d,%d) %s [%s])", c.Max, strings.Join(ws, "; "), lib.CoqZ(int64(c.Win[0])), lib.CoqZ(int64(c.Win[1])), lib.CoqZ(int64(c.Win[2])),
 			wd[0], wd[1], wd[2], lib.CoqNList(status), strings.Join(levels, "; "))
-		if hist {
+		if c.dag() {
+			// every write printed as a history step, paired with its version
+			vs := make([]string, len(c.Writes))
+			for i, w := range c.Writes {
+				pos := fmt.Sprintf("%s%%Z %s%%Z %s%%Z (%d,%d,%d)", lib.CoqZ(int64(w.Off[0])), lib.CoqZ(int64(w.Off[1])), lib.CoqZ(int64(w.Off[2])), w.Size[0], w.Size[1], w.Size[2])
+				var t string
+				switch w.Via {
+				case "":
+					t = fmt.Sprintf("(WRaw %s %s)", pos, blk.CoqPaints(w.Paints))
+				case "blocks":
+					t = fmt.Sprintf("(WBlocks %d %v %v %s %s)", w.Scale, w.Downres, w.legal(), pos, blk.CoqPaints(w.Paints))
+				default:
+					var es []string
+					for _, e := range res.Tables[i] {
+						es = append(es, fmt.Sprintf("(%d,%d,%d)", e[0], e[1], e[2]))
+					}
+					t = fmt.Sprintf("(WRelabel %v %v %s %s [%s])", !w.NoDown, !res.Illegal[i], pos, blk.CoqPaints(w.Paints), strings.Join(es, ";"))
+				}
+				vs[i] = fmt.Sprintf("(%d,%s)", w.Ver, t)
+				if !hist {
+					run.Count("http:via:" + map[string]string{"": "raw"}[w.Via] + w.Via)
+				}
+			}
+			dl := make([]string, len(res.DagLevels))
+			for i, per := range res.DagLevels {
+				pv := make([]string, len(per))
+				for q, lv := range per {
+					pv[q] = "[" + strings.Join(lv, "; ") + "]"
+				}
+				dl[i] = "[" + strings.Join(pv, "; ") + "]"
+			}
+			term = fmt.Sprintf("(CDag %d (%d,%d,%d) [%s] %s %s %s (%d,%d,%d) %s [%s])", c.Max, bs[0], bs[1], bs[2], strings.Join(vs, "; "),
+				lib.CoqZ(int64(c.Win[0])), lib.CoqZ(int64(c.Win[1])), lib.CoqZ(int64(c.Win[2])), wd[0], wd[1], wd[2], lib.CoqNList(status), strings.Join(dl, "; "))
+			run.Count("http:dag-history")
+		} else if hist {
 			sl := make([]string, len(res.StepLevels))
 			for i, lv := range res.StepLevels {
 				sl[i] = "[" + strings.Join(lv, "; ") + "]"
@@ -1009,9 +1106,79 @@ func main() {
 		run.Count("http:block-level-model")
 	}
 
+	// (d) histories over a version DAG: a root that holds data (a 32^3 group, then the window repainted
+	//     with a supervoxel across the block boundary), committed; two sibling open versions (newversion
+	//     child, branch child) written in an interleaved order through raw / blocks?downres=true /
+	//     supervoxel split, one block (or, for a split, two) of the same level-1 / level-2 parent at a
+	//     time; after every step ALL levels of BOTH versions are compared with what each version's own
+	//     level 0 gives
+	nDag := 2
+	if o.Thorough() {
+		nDag = 10
+	}
+	for i := 0; i < nDag; i++ {
+		win := hwins[(int(o.Seed)+i)%len(hwins)]
+		base := [3]int{floorDiv(win[0], 32) * 32, floorDiv(win[1], 32) * 32, floorDiv(win[2], 32) * 32}
+		x0, x1 := 2+rng.Intn(10), 20+rng.Intn(10)
+		y0, z0 := rng.Intn(6), rng.Intn(6)
+		y1, z1 := y0+4+rng.Intn(6), z0+4+rng.Intn(6)
+		ing := jwrite{Off: base, Size: [3]int{32, 32, 32}, Paints: []blk.Paint{blk.Hash([6]int{0, 0, 0, 32, 32, 32}, uint64(rng.Pick(2, 4)), uint64(rng.Intn(1<<16)), []uint64{1, 2, 3})}}
+		if rng.Bool() {
+			ing.Via, ing.Downres = "blocks", true
+		}
+		ws := []jwrite{ing, {Off: win, Size: hwd, Paints: []blk.Paint{blk.Hash([6]int{0, 0, 0, 32, 16, 16}, uint64(rng.Pick(2, 4)), uint64(rng.Intn(1<<16)), []uint64{1, 2, 0}),
+			blk.Box([6]int{x0, y0, z0, x1, y1, z1}, 7)}}}
+		kinds := []string{"", "blocks", "svsplit", "", "svsplit", "blocks"}
+		for a := len(kinds) - 1; a > 0; a-- {
+			b := rng.Intn(a + 1)
+			kinds[a], kinds[b] = kinds[b], kinds[a]
+		}
+		nSteps := 4
+		if o.Thorough() {
+			nSteps = 6
+		}
+		v := 1 + rng.Intn(2)
+		blocksOver := map[int]bool{}
+		for q := 0; q < nSteps; q++ {
+			if q > 0 && !rng.Chance(0.2) {
+				v = 3 - v // mostly alternate between the siblings
+			}
+			bx := v - 1 // each sibling mostly keeps to its own block of the shared parent
+			if rng.Chance(0.25) {
+				bx = 1 - bx
+			}
+			// the part of the supervoxel's box inside block bx, window coordinates
+			lo, hi := x0, 16
+			if bx == 1 {
+				lo, hi = 16, x1
+			}
+			// POST blocks over a block that already holds data leaves the label index of the supervoxels it
+			// replaces as it was (an ingest call; the index is another property's subject), and a split of
+			// such a supervoxel is then refused: no split after a blocks overwrite in the same version
+			kind := kinds[q]
+			if kind == "svsplit" && blocksOver[v] {
+				kind = ""
+			}
+			if kind == "blocks" {
+				blocksOver[v] = true
+			}
+			switch kind {
+			case "svsplit":
+				at := [3]int{win[0] + lo, win[1] + y0, win[2] + z0}
+				ws = append(ws, jwrite{Ver: v, Via: "svsplit", At: &at, Off: win, Size: hwd,
+					Paints: []blk.Paint{blk.Box([6]int{lo, y0, z0, lo + 1 + rng.Intn(hi-lo-1), y1, z0 + 1 + rng.Intn(z1-z0)}, 1)}})
+			default:
+				// an overwrite of the block: noise, and a fresh non-zero supervoxel where the box was
+				ps := append(blockNoise([]uint64{uint64(10*v + q), uint64(40 + q), 0}, [3]int{16, 16, 16}), blk.Box([6]int{lo - 16*bx, y0, z0, hi - 16*bx, y1, z1}, uint64(70+10*v+q)))
+				ws = append(ws, jwrite{Ver: v, Via: kind, Downres: kind == "blocks", Off: [3]int{win[0] + 16*bx, win[1], win[2]}, Size: [3]int{16, 16, 16}, Paints: ps})
+			}
+		}
+		addHTTP(jcase{Kind: "http", Max: 2, Win: win, WD: hwd, Writes: ws})
+	}
+
 	flushHTTP()
 	run.Finish("c14case",
-		"Block.Downres with every mix of nil / solid / mixed octants over mixed and solid parents; DownresLabels on small arrays with ties and zeros; labelmap over HTTP: ingest of a 64^3 window then 1-2 overwrites of block groups (one block, a row, 2x2x2, solid 0), windows at non-negative and negative block coordinates, levels 0..2 read back; histories through POST blocks (all option combinations), body splits (SplitLabels) and supervoxel splits, uniform regions followed by partial updates; distinct by (kind, touch pattern, content digest)",
+		"Block.Downres with every mix of nil / solid / mixed octants over mixed and solid parents; DownresLabels on small arrays with ties and zeros; labelmap over HTTP: ingest of a 64^3 window then 1-2 overwrites of block groups (one block, a row, 2x2x2, solid 0), windows at non-negative and negative block coordinates, levels 0..2 read back; histories through POST blocks (all option combinations), body splits (SplitLabels) and supervoxel splits, uniform regions followed by partial updates; version-DAG histories: a committed root with data, a newversion child and a branch child both open, raw / blocks?downres / supervoxel-split steps interleaved between the siblings on blocks of one shared parent, all levels of both versions compared after every step; distinct by (kind, touch pattern, content digest)",
 		tail)
 }
 
